@@ -118,6 +118,31 @@ Lemma xstep_try m w k rest : ty k = tt_TryToken ->
   parse_xstmt (S m) w (k :: rest) = try_arm (fun ts' => parse_xlist m w ts' []) rest.
 Proof. intros E. cbn [parse_xstmt]. rewrite E. reflexivity. Qed.
 
+Lemma xstep_switch m w k rest : ty k = tt_SwitchToken ->
+  parse_xstmt (S m) w (k :: rest) = switch_arm (fun ts' => parse_xclauses m w ts' []) rest.
+Proof. intros E. cbn [parse_xstmt]. rewrite E. reflexivity. Qed.
+
+Lemma xstep_cstmts_end m w ts acc : ends_clause ts = true -> parse_xcstmts (S m) w ts acc = Ok (rev acc, ts).
+Proof. intros E. cbn [parse_xcstmts]. rewrite E. reflexivity. Qed.
+
+Lemma xstep_cstmts_cons m w ts acc : ends_clause ts = false ->
+  parse_xcstmts (S m) w ts acc = ('(s, r) <~ parse_xstmt m w ts ;; parse_xcstmts m w r (s :: acc)).
+Proof. intros E. cbn [parse_xcstmts]. rewrite E. reflexivity. Qed.
+
+Lemma xstep_clauses_end m w k r acc : ty k = tt_CloseBraceToken -> parse_xclauses (S m) w (k :: r) acc = Ok (rev acc, r).
+Proof. intros E. cbn [parse_xclauses]. rewrite E. reflexivity. Qed.
+
+Lemma xstep_clauses_case m w k r acc : ty k = tt_CaseToken ->
+  parse_xclauses (S m) w (k :: r) acc =
+  ('(e, r1) <~ parse true prec_OpExpr r ;; r2 <~ expect tt_ColonToken r1 ;; '(l, r3) <~ parse_xcstmts m w r2 [] ;;
+   parse_xclauses m w r3 ((Some e, l) :: acc)).
+Proof. intros E. cbn [parse_xclauses]. rewrite E. reflexivity. Qed.
+
+Lemma xstep_clauses_default m w k r acc : ty k = tt_DefaultToken ->
+  parse_xclauses (S m) w (k :: r) acc =
+  (r2 <~ expect tt_ColonToken r ;; '(l, r3) <~ parse_xcstmts m w r2 [] ;; parse_xclauses m w r3 ((None, l) :: acc)).
+Proof. intros E. cbn [parse_xclauses]. rewrite E. reflexivity. Qed.
+
 Lemma xstep_for m w k rest : ty k = tt_ForToken ->
   parse_xstmt (S m) w (k :: rest) = for_arm (parse_xstmt m w) (fun ts' => parse_xlist m w ts' []) rest.
 Proof. intros E. cbn [parse_xstmt]. rewrite E. reflexivity. Qed.
@@ -241,6 +266,11 @@ Inductive xone : list token -> xstmt -> list token -> Prop :=
     ty k = tt_TryToken -> ty ko = tt_OpenBraceToken -> xlist tb b r2 -> xcatch r2 c r3 -> xfin r3 f rest ->
     (c <> None \/ f <> None) -> no_same_line_semi rest ->
     xone (k :: ko :: tb) (XTry b c f) rest
+  (* switch ( Expression ) { CaseClause ... [DefaultClause] CaseClause ... } *)
+| XO_switch k lp cs c rp ko ts cl rest :
+    ty k = tt_SwitchToken -> ty lp = tt_OpenParenToken -> derives true Expression cs c -> ty rp = tt_CloseParenToken ->
+    ty ko = tt_OpenBraceToken -> xclauses ts cl rest -> no_same_line_semi rest ->
+    xone (k :: lp :: cs ++ rp :: ko :: ts) (XSwitch c cl) rest
 (* StatementList up to the '}' of a block *)
 with xlist : list token -> list xstmt -> list token -> Prop :=
 | XL_end kc rest : ty kc = tt_CloseBraceToken -> xlist (kc :: rest) [] rest
@@ -256,13 +286,29 @@ with xcatch : list token -> option (option (list Z) * list xstmt) -> list token 
 with xfin : list token -> option (list xstmt) -> list token -> Prop :=
 | XF_none r : first_is tt_FinallyToken r = false -> xfin r None r
 | XF_some kf ko tb l rest : ty kf = tt_FinallyToken -> ty ko = tt_OpenBraceToken -> xlist tb l rest ->
-    xfin (kf :: ko :: tb) (Some l) rest.
+    xfin (kf :: ko :: tb) (Some l) rest
+(* the clauses of a switch statement up to its '}'; at most one default clause *)
+with xclauses : list token -> list (option expr * list xstmt) -> list token -> Prop :=
+| XK_end kc rest : ty kc = tt_CloseBraceToken -> xclauses (kc :: rest) [] rest
+| XK_case k xs x c ts l r cl rest :
+    ty k = tt_CaseToken -> derives true Expression xs x -> ty c = tt_ColonToken -> xcstmts ts l r -> xclauses r cl rest ->
+    xclauses (k :: xs ++ c :: ts) ((Some x, l) :: cl) rest
+| XK_default k c ts l r cl rest :
+    ty k = tt_DefaultToken -> ty c = tt_ColonToken -> xcstmts ts l r -> xclauses r cl rest ->
+    forallb (fun p : option expr * list xstmt => match fst p with Some _ => true | None => false end) cl = true ->
+    xclauses (k :: c :: ts) ((None, l) :: cl) rest
+(* the StatementList of a clause: up to the next case, default or '}' *)
+with xcstmts : list token -> list xstmt -> list token -> Prop :=
+| XS_end r : r <> [] -> ends_clause r = true -> xcstmts r [] r
+| XS_cons ts s r l rest : ends_clause ts = false -> xone ts s r -> xcstmts r l rest -> xcstmts ts (s :: l) rest.
 
 Scheme xone_mind := Induction for xone Sort Prop
   with xlist_mind := Induction for xlist Sort Prop
   with xcatch_mind := Induction for xcatch Sort Prop
-  with xfin_mind := Induction for xfin Sort Prop.
-Combined Scheme x_both_ind from xone_mind, xlist_mind, xcatch_mind, xfin_mind.
+  with xfin_mind := Induction for xfin Sort Prop
+  with xclauses_mind := Induction for xclauses Sort Prop
+  with xcstmts_mind := Induction for xcstmts Sort Prop.
+Combined Scheme x_both_ind from xone_mind, xlist_mind, xcatch_mind, xfin_mind, xclauses_mind, xcstmts_mind.
 
 Inductive xprog : list token -> list xstmt -> Prop :=
 | XP_nil : xprog [] []
@@ -279,6 +325,7 @@ Fixpoint tw (w : bool) (s : xstmt) : xstmt :=
   | XDo v c => XDo (tw w v) c
   | XWith c v => XWith c (tw w v)
   | XTry b c f => XTry (map (tw w) b) (option_map (fun p => (fst p, map (tw w) (snd p))) c) (option_map (map (tw w)) f)
+  | XSwitch e cl => XSwitch e (map (fun p => (fst p, map (tw w) (snd p))) cl)
   | _ => s
   end.
 
@@ -440,6 +487,10 @@ Ltac for_head Hk Hlp Hfi Hc Hp :=
   destruct (fopt_ok _ _ _ _ (or_intror eq_refl) Hp) as [Ep Lp];
   cbn [length] in Li, Lc, Lp.
 
+Lemma expression_then_colon xs x c rest : derives true Expression xs x -> ty c = tt_ColonToken ->
+  parse true prec_OpExpr (xs ++ c :: rest) = Ok (x, c :: rest).
+Proof. intros d Hc. apply (expression_then true xs x (c :: rest) d). apply ncont_close. right. right. exact Hc. Qed.
+
 Lemma xcatch_none r r3 : xcatch r None r3 -> r3 = r.
 Proof. intros H. inversion H; subst. reflexivity. Qed.
 
@@ -456,14 +507,23 @@ Definition PF w ts (f : option (list xstmt)) rest := (length rest <= length ts)%
   forall m, (length ts - length rest <= m)%nat ->
     try_fin (fun ts' => parse_xlist (S m) w ts' []) ts = Ok (option_map (map (tw w)) f, rest).
 
+Definition twc w (p : option expr * list xstmt) : option expr * list xstmt := (fst p, map (tw w) (snd p)).
+Definition PK w ts (cl : list (option expr * list xstmt)) rest := (length rest < length ts)%nat /\
+  forall m acc, (length ts - length rest <= m)%nat -> parse_xclauses (S (S m)) w ts acc = Ok (rev acc ++ map (twc w) cl, rest).
+Definition PS w ts (l : list xstmt) rest := (length rest <= length ts)%nat /\
+  forall m acc, (length ts - length rest <= m)%nat -> parse_xcstmts (S (S m)) w ts acc = Ok (rev acc ++ map (tw w) l, rest).
+
 Lemma x_all w :
   (forall ts s rest (x : xone ts s rest), PX w ts s rest) /\
   (forall ts l rest (x : xlist ts l rest), PL w ts l rest) /\
   (forall ts c rest (x : xcatch ts c rest), PC w ts c rest) /\
-  (forall ts f rest (x : xfin ts f rest), PF w ts f rest).
+  (forall ts f rest (x : xfin ts f rest), PF w ts f rest) /\
+  (forall ts cl rest (x : xclauses ts cl rest), PK w ts cl rest) /\
+  (forall ts l rest (x : xcstmts ts l rest), PS w ts l rest).
 Proof.
   apply (x_both_ind (fun ts s rest _ => PX w ts s rest) (fun ts l rest _ => PL w ts l rest)
-           (fun ts c rest _ => PC w ts c rest) (fun ts f rest _ => PF w ts f rest)); unfold PX, PL, PC, PF.
+           (fun ts c rest _ => PC w ts c rest) (fun ts f rest _ => PF w ts f rest)
+           (fun ts cl rest _ => PK w ts cl rest) (fun ts l rest _ => PS w ts l rest)); unfold PX, PL, PC, PF, PK, PS.
   - (* base *)
     intros ts s rest Ho Hnl. destruct (one_stmt _ _ _ Ho) as [Hl Hs]. split; [exact Hl|]. intros m _.
     rewrite (tw_inj _ _ Hnl).
@@ -602,6 +662,14 @@ Proof.
     rewrite IHc; [|lia|].
     + cbn [rbind]. rewrite IHf by lia. cbn [rbind tw]. rewrite (skip_same_line _ Hsl). reflexivity.
     + intros Ec. subst c. rewrite (xcatch_none _ _ Hc) in Hf. apply (xfin_some _ _ _ Hf). destruct Hne as [H|H]; [contradiction|exact H].
+  - (* switch *)
+    intros k lp cs c rp ko ts cl rest Hk Hlp d Hrp Hko Hcl [IHl IH] Hsl.
+    split; [cbn [length]; rewrite app_length; cbn [length]; lia|]. intros m Hm.
+    rewrite (xstep_switch _ _ _ _ Hk). unfold switch_arm. rewrite (expect_ok_tok _ _ _ Hlp). cbn [rbind].
+    rewrite (cond_parse _ _ _ _ d Hrp). cbn [rbind]. rewrite (expect_ok_tok _ _ _ Hrp). cbn [rbind].
+    rewrite (expect_ok_tok _ _ _ Hko). cbn [rbind]. cbv beta.
+    cbn [length] in Hm. rewrite app_length in Hm. cbn [length] in Hm.
+    destruct m as [|[|m']]; [lia|lia|]. rewrite (IH m' []) by lia. cbn [rbind rev app tw]. rewrite (skip_same_line _ Hsl). reflexivity.
   - (* end of the list *)
     intros kc rest Hkc. split; [cbn [length]; lia|]. intros m acc _. cbn [parse_xlist]. rewrite Hkc, Z.eqb_refl.
     cbn [map]. rewrite app_nil_r. reflexivity.
@@ -629,7 +697,29 @@ Proof.
     intros r Hf. split; [lia|]. intros m _. destruct r as [|a ra]; [reflexivity|]. cbn [first_is] in Hf. cbn [try_fin]. rewrite Hf. reflexivity.
   - (* finally { } *)
     intros kf ko tb l rest Hkf Hko Hl [IHl IH]. split; [cbn [length]; lia|]. intros m Hm. cbn [length] in Hm.
-    cbn [try_fin]. rewrite Hkf, Z.eqb_refl. rewrite (expect_ok_tok _ _ _ Hko). cbn [rbind]. cbv beta. rewrite (IH m []) by lia. reflexivity.
+    cbn [try_fin]. rewrite Hkf, Z.eqb_refl. rewrite (expect_ok_tok _ _ _ Hko). cbn [rbind]. cbv beta. rewrite (IH m []) by lia. reflexivity.  - (* end of the clauses *)
+    intros kc rest Hkc. split; [cbn [length]; lia|]. intros m acc _. rewrite (xstep_clauses_end _ _ _ _ _ Hkc).
+    cbn [map]. rewrite app_nil_r. reflexivity.
+  - (* case *)
+    intros k xs x c ts l r cl rest Hk d Hc Hcs [IHls IHs] Hcl [IHlc IHc].
+    split; [cbn [length]; rewrite app_length; cbn [length]; lia|]. intros m acc Hm.
+    cbn [length] in Hm. rewrite app_length in Hm. cbn [length] in Hm.
+    rewrite (xstep_clauses_case _ _ _ _ _ Hk).
+    rewrite (expression_then_colon _ _ _ _ d Hc). cbn [rbind]. rewrite (expect_ok_tok _ _ _ Hc). cbn [rbind].
+    destruct m as [|m']; [lia|]. rewrite (IHs m' []) by lia. cbn [rbind rev app].
+    rewrite IHc by lia. cbn [rev map twc fst snd]. rewrite <- app_assoc. reflexivity.
+  - (* default *)
+    intros k c ts l r cl rest Hk Hc Hcs [IHls IHs] Hcl [IHlc IHc] _.
+    split; [cbn [length]; lia|]. intros m acc Hm. cbn [length] in Hm.
+    rewrite (xstep_clauses_default _ _ _ _ _ Hk). rewrite (expect_ok_tok _ _ _ Hc). cbn [rbind].
+    destruct m as [|m']; [lia|]. rewrite (IHs m' []) by lia. cbn [rbind rev app].
+    rewrite IHc by lia. cbn [rev map twc fst snd]. rewrite <- app_assoc. reflexivity.
+  - (* end of the clause *)
+    intros r Hne He. split; [lia|]. intros m acc _. rewrite (xstep_cstmts_end _ _ _ _ He). cbn [map]. rewrite app_nil_r. reflexivity.
+  - (* one more statement of the clause *)
+    intros ts s r l rest He Hone [IHl IH] Hcs [IHll IHL]. split; [lia|]. intros m acc Hm.
+    rewrite (xstep_cstmts_cons _ _ _ _ He). rewrite IH by lia. cbn [rbind].
+    destruct m as [|m']; [lia|]. rewrite IHL by lia. cbn [rev map]. rewrite <- app_assoc. reflexivity.
 Qed.
 
 Lemma xprog_module w ts l : xprog ts l ->
@@ -660,6 +750,8 @@ Proof.
       induction l as [|a l IH]; [reflexivity|]. cbn [map]. rewrite (tw_false a), IH. reflexivity.
     + destruct f as [l|]; [|reflexivity]. cbn [option_map]. f_equal.
       induction l as [|a l IH]; [reflexivity|]. cbn [map]. rewrite (tw_false a), IH. reflexivity.
+  - f_equal. induction cl as [|[o l] cl IH]; [reflexivity|]. cbn [map fst snd]. rewrite IH. f_equal. f_equal.
+    induction l as [|a l IHl]; [reflexivity|]. cbn [map]. rewrite (tw_false a), IHl. reflexivity.
 Qed.
 
 Lemma map_tw_false l : map (tw false) l = l.
@@ -679,7 +771,8 @@ Proof. intros ts l H. unfold parse_xprogram. rewrite (xprog_module true _ _ H) b
      var i = a , b ;
      for ( i = a ; i ; i ++ ) { if ( b ) break ; else continue l ; }
      do a ; while ( b )
-     l : while ( a ) throw b ; { } debugger ; with ( a ) b ; try { } catch ( e ) { } finally { } a = b                                                                                     *)
+     l : while ( a ) throw b ; { } debugger ; with ( a ) b ; try { } catch ( e ) { } finally { }
+     switch ( a ) { case b : a ; default : break ; } a = b                                                                                     *)
 
 Definition kw (t : Z) : token := mkTok t false (tok_bytes t).
 Definition idi : token := idt 105.
@@ -700,8 +793,11 @@ Definition x_s8 : list token := [kw tt_WithToken; kw tt_OpenParenToken; ida; kw 
 Definition x_s9 : list token :=
   [kw tt_TryToken; kw tt_OpenBraceToken; kw tt_CloseBraceToken; kw tt_CatchToken; kw tt_OpenParenToken; idt 101; kw tt_CloseParenToken;
    kw tt_OpenBraceToken; kw tt_CloseBraceToken; kw tt_FinallyToken; kw tt_OpenBraceToken; kw tt_CloseBraceToken].
+Definition x_s10 : list token :=
+  [kw tt_SwitchToken; kw tt_OpenParenToken; ida; kw tt_CloseParenToken; kw tt_OpenBraceToken; kw tt_CaseToken; idb; colon; ida; sm;
+   kw tt_DefaultToken; colon; kw tt_BreakToken; sm; kw tt_CloseBraceToken].
 Definition x_s6 : list token := [ida; kw tt_EqToken; idb].
-Definition x_tokens : list token := x_s1 ++ x_s2 ++ x_s3 ++ x_s4 ++ x_s5 ++ x_s7 ++ x_s8 ++ x_s9 ++ x_s6.
+Definition x_tokens : list token := x_s1 ++ x_s2 ++ x_s3 ++ x_s4 ++ x_s5 ++ x_s7 ++ x_s8 ++ x_s9 ++ x_s10 ++ x_s6.
 
 Definition vi : expr := EVar [105].
 Definition x_stmts : list xstmt :=
@@ -714,6 +810,7 @@ Definition x_stmts : list xstmt :=
     XDebugger;
     XWith va (XExpr vb);
     XTry [] (Some (Some [101], [])) (Some []);
+    XSwitch va [(Some vb, [XExpr va]); (None, [XBranch tt_BreakToken None])];
     XExpr (EBinary tt_EqToken va vb) ].
 
 Example x_example : parse_xprogram false x_tokens = Ok x_stmts.
@@ -732,55 +829,68 @@ Example x_example_derivable : xprog x_tokens x_stmts.
 Proof.
   unfold x_tokens, x_stmts.
   (* var i = a , b ; *)
-  apply (XP_cons _ _ (x_s2 ++ x_s3 ++ x_s4 ++ x_s5 ++ x_s7 ++ x_s8 ++ x_s9 ++ x_s6)).
-  { apply (XO_var (kw tt_VarToken) _ _ (sm :: x_s2 ++ x_s3 ++ x_s4 ++ x_s5 ++ x_s7 ++ x_s8 ++ x_s9 ++ x_s6)); [reflexivity| |apply T_semi; reflexivity].
+  apply (XP_cons _ _ (x_s2 ++ x_s3 ++ x_s4 ++ x_s5 ++ x_s7 ++ x_s8 ++ x_s9 ++ x_s10 ++ x_s6)).
+  { apply (XO_var (kw tt_VarToken) _ _ (sm :: x_s2 ++ x_s3 ++ x_s4 ++ x_s5 ++ x_s7 ++ x_s8 ++ x_s9 ++ x_s10 ++ x_s6)); [reflexivity| |apply T_semi; reflexivity].
     apply (V_more_init true idi (kw tt_EqToken) [ida] va (kw tt_CommaToken)); [reflexivity|reflexivity|apply dA_ident|reflexivity|].
     apply V_one; reflexivity. }
   (* for ( i = a ; i ; i ++ ) { if ( b ) break ; else continue l ; } *)
-  apply (XP_cons _ _ (x_s3 ++ x_s4 ++ x_s5 ++ x_s7 ++ x_s8 ++ x_s9 ++ x_s6)).
+  apply (XP_cons _ _ (x_s3 ++ x_s4 ++ x_s5 ++ x_s7 ++ x_s8 ++ x_s9 ++ x_s10 ++ x_s6)).
   { eapply (XO_for_block (kw tt_ForToken) (kw tt_OpenParenToken) _ _ sm _ _ sm _ _ (kw tt_CloseParenToken) (kw tt_OpenBraceToken)); try reflexivity.
     - apply (FI_expr [idi; kw tt_EqToken; ida] _ (sm :: _)); [apply dE; vm_compute; reflexivity|reflexivity|reflexivity].
     - apply (FO_some tt_SemicolonToken [idi] _ (sm :: _)); [apply dE; vm_compute; reflexivity|reflexivity].
     - apply (FO_some tt_CloseParenToken [idi; kw tt_IncrToken] _ (kw tt_CloseParenToken :: _)); [apply dE; vm_compute; reflexivity|reflexivity].
-    - apply (XL_cons _ _ (kw tt_CloseBraceToken :: x_s3 ++ x_s4 ++ x_s5 ++ x_s7 ++ x_s8 ++ x_s9 ++ x_s6)); [reflexivity| |apply XL_end; reflexivity].
+    - apply (XL_cons _ _ (kw tt_CloseBraceToken :: x_s3 ++ x_s4 ++ x_s5 ++ x_s7 ++ x_s8 ++ x_s9 ++ x_s10 ++ x_s6)); [reflexivity| |apply XL_end; reflexivity].
       eapply (XO_if_else (kw tt_IfToken) (kw tt_OpenParenToken) [idb] vb (kw tt_CloseParenToken) _ _ (kw tt_ElseToken)); try reflexivity.
       + apply dE. vm_compute. reflexivity.
       + apply (XO_branch (kw tt_BreakToken) (sm :: _)); [left; reflexivity| |apply T_semi; reflexivity].
         intros c r' E. inversion E; subst. right. repeat split; vm_compute; discriminate.
       + apply (XO_branch_label (kw tt_ContinueToken) idl0 (sm :: _)); [right; reflexivity|reflexivity|reflexivity|apply T_semi; reflexivity]. }
   (* do a ; while ( b )   — no ';': the next statement starts a new line *)
-  apply (XP_cons _ _ (x_s4 ++ x_s5 ++ x_s7 ++ x_s8 ++ x_s9 ++ x_s6)).
+  apply (XP_cons _ _ (x_s4 ++ x_s5 ++ x_s7 ++ x_s8 ++ x_s9 ++ x_s10 ++ x_s6)).
   { eapply (XO_do_asi (kw tt_DoToken) _ _ (kw tt_WhileToken) (kw tt_OpenParenToken) [idb] vb (kw tt_CloseParenToken)); try reflexivity.
     - apply (XO_base _ (SExpr va)); [|intros; discriminate].
       apply (O_semi [ida] va sm); [split; [apply dE; vm_compute; reflexivity|reflexivity]|reflexivity].
     - apply dE. vm_compute. reflexivity. }
   (* l : while ( a ) throw b ; *)
-  apply (XP_cons _ _ (x_s5 ++ x_s7 ++ x_s8 ++ x_s9 ++ x_s6)).
+  apply (XP_cons _ _ (x_s5 ++ x_s7 ++ x_s8 ++ x_s9 ++ x_s10 ++ x_s6)).
   { apply XO_label; [repeat split; try reflexivity; vm_compute; discriminate|reflexivity| |reflexivity].
     eapply (XO_while (kw tt_WhileToken) (kw tt_OpenParenToken) [ida] va (kw tt_CloseParenToken)); try reflexivity.
     - apply dE. vm_compute. reflexivity.
     - apply (XO_throw (kw tt_ThrowToken) [idb] vb (sm :: _)); [reflexivity|apply dE; vm_compute; reflexivity| |apply T_semi; reflexivity].
       intros c xs' E. inversion E; subst. reflexivity. }
   (* { } *)
-  apply (XP_cons _ _ (x_s7 ++ x_s8 ++ x_s9 ++ x_s6)).
+  apply (XP_cons _ _ (x_s7 ++ x_s8 ++ x_s9 ++ x_s10 ++ x_s6)).
   { apply XO_block; [reflexivity|apply XL_end; reflexivity|reflexivity]. }
   (* debugger ; *)
-  apply (XP_cons _ _ (x_s8 ++ x_s9 ++ x_s6)).
+  apply (XP_cons _ _ (x_s8 ++ x_s9 ++ x_s10 ++ x_s6)).
   { apply (XO_debugger (kw tt_DebuggerToken) (sm :: _)); [reflexivity|apply T_semi; reflexivity]. }
   (* with ( a ) b ; *)
-  apply (XP_cons _ _ (x_s9 ++ x_s6)).
+  apply (XP_cons _ _ (x_s9 ++ x_s10 ++ x_s6)).
   { eapply (XO_with (kw tt_WithToken) (kw tt_OpenParenToken) [ida] va (kw tt_CloseParenToken)); try reflexivity.
     - apply dE. vm_compute. reflexivity.
     - apply (XO_base _ (SExpr vb)); [|intros; discriminate].
       apply (O_semi [idb] vb sm); [split; [apply dE; vm_compute; reflexivity|reflexivity]|reflexivity]. }
   (* try { } catch ( e ) { } finally { } *)
-  apply (XP_cons _ _ x_s6).
+  apply (XP_cons _ _ (x_s10 ++ x_s6)).
   { eapply (XO_try (kw tt_TryToken) (kw tt_OpenBraceToken)); try reflexivity.
     - apply XL_end. reflexivity.
     - apply (XC_param (kw tt_CatchToken) (kw tt_OpenParenToken) (idt 101) (kw tt_CloseParenToken) (kw tt_OpenBraceToken)); try reflexivity.
       apply XL_end. reflexivity.
     - apply (XF_some (kw tt_FinallyToken) (kw tt_OpenBraceToken)); try reflexivity. apply XL_end. reflexivity.
     - left. discriminate. }
+  (* switch ( a ) { case b : a ; default : break ; } *)
+  apply (XP_cons _ _ x_s6).
+  { eapply (XO_switch (kw tt_SwitchToken) (kw tt_OpenParenToken) [ida] va (kw tt_CloseParenToken) (kw tt_OpenBraceToken)); try reflexivity.
+    - apply dE. vm_compute. reflexivity.
+    - apply (XK_case (kw tt_CaseToken) [idb] vb colon _ _ (kw tt_DefaultToken :: colon :: kw tt_BreakToken :: sm :: kw tt_CloseBraceToken :: x_s6));
+        [reflexivity|apply dE; vm_compute; reflexivity|reflexivity| |].
+      + apply (XS_cons _ (XExpr va) (kw tt_DefaultToken :: colon :: kw tt_BreakToken :: sm :: kw tt_CloseBraceToken :: x_s6)); [reflexivity| |apply XS_end; [discriminate|reflexivity]].
+        apply (XO_base _ (SExpr va)); [|intros; discriminate].
+        apply (O_semi [ida] va sm); [split; [apply dE; vm_compute; reflexivity|reflexivity]|reflexivity].
+      + apply (XK_default (kw tt_DefaultToken) colon _ _ (kw tt_CloseBraceToken :: x_s6)); [reflexivity|reflexivity| |apply XK_end; reflexivity|reflexivity].
+        apply (XS_cons _ (XBranch tt_BreakToken None) (kw tt_CloseBraceToken :: x_s6)); [reflexivity| |apply XS_end; [discriminate|reflexivity]].
+        apply (XO_branch (kw tt_BreakToken) (sm :: _)); [left; reflexivity| |apply T_semi; reflexivity].
+        intros c r' E. inversion E; subst. right. repeat split; vm_compute; discriminate. }
   (* a = b *)
   apply (XP_cons _ _ []); [|apply XP_nil].
   apply (XO_base x_s6 (SExpr (EBinary tt_EqToken va vb))); [|intros; discriminate].
